@@ -185,7 +185,8 @@ def build_device(rng, d):
         wg.start([-1.0, 0.3 * (3 - i), 0.035]).linear([3.0, 0, 0]).arc_bend(0.02 * (-1) ** i).linear([9.0, None, None], mode='ABS')
         wg.end()
         wgs.append(wg)
-    wgs[2].scan = wgs[3].scan
+    if rng.random() < 0.5:
+        wgs[2].scan = wgs[3].scan       # the two guides of the group otherwise keep their own (possibly different) scan numbers
     nw = NasuWaveguide(adj_scan=3, adj_scan_shift=(0, 0.001, 0), speed=10, samplesize=(8, 4))
     nw.start([-1.0, 1.5, 0.035]).linear([9.0, None, None], mode='ABS')
     nw.end()
@@ -289,8 +290,20 @@ def run_device(ctx):
                         first.setdefault('floor', v)
                         first.setdefault('coltime', [c.fabrication_time for c in cols])
                     elif op == 'writer_plot':
-                        w = rng.choice(list(dev.writers.values()))
-                        w.plot2d()
+                        # what a writer draws with the default style is the same figure every time, also after a plot that was
+                        # given a style of its own
+                        kcls, w = rng.choice(list(dev.writers.items()))
+                        dim = rng.choice(['2d', '3d'])
+                        key = f'fig:{kcls.__name__}:{dim}'
+                        hj = h(getattr(w, 'plot' + dim)().to_json().encode())
+                        if key in first and first[key] != hj:
+                            bad = (f'the {dim} plot of the {kcls.__name__} writer with the default style differs from the first one', 'plot-repeat')
+                        first.setdefault(key, hj)
+                        if 'Trench' not in kcls.__name__ and rng.random() < 0.5 and not bad:
+                            getattr(w, 'plot' + dim)(style={'color': rng.choice(['red', 'green', '#123456', 'orange']), 'width': rng.choice([3.0, 0.5])})
+                            ctx.count('device.styled_plot', kcls.__name__ + dim)
+                            if h(getattr(w, 'plot' + dim)().to_json().encode()) != hj:
+                                bad = (f'after a {dim} plot with a style of its own, the default plot of the {kcls.__name__} writer is another figure', 'plot-repeat')
                     else:
                         for p in paths:
                             p.points, p.x, p.lastpt, p.path3d
